@@ -117,6 +117,14 @@ def body_and_end_search(ctx, res, b, inline, variants):
             if seed.get("k") == "tuple" and len(seed["es"]) >= 2:
                 seed_state = T.render(seed["es"][1]).split("::")[-1]
     if seed_state is None:
+        # loop form: `let mut state = State::Text; for (..) in source.char_indices() { .. }`
+        adt_path = None
+        for s_ in T.nodes(tk["tree"], "let"):
+            if s_["pat"]["p"] == "bind" and s_.get("init") is not None and "Mut" in s_["pat"].get("mode", ""):
+                i_ = T.peel(s_["init"])
+                if i_.get("k") == "path" and i_["res"].get("dk", "").startswith("Ctor") and "tokenizer::State::" in (i_["res"].get("path") or ""):
+                    seed_state = i_["res"]["path"].split("::")[-1]
+    if seed_state is None:
         res.cannot("C08.R4", fn, "base-state", "initial tokenizer state not found", loc)
         return
     body_states = [v for v, n_ in variants.items() if n_ == 0 and v != seed_state]
